@@ -48,6 +48,7 @@ static void *rep_cb(void *ctx, UINT32 size, UINT32 esi) { sess_t *s = ctx; s->cb
 static of_status_t set_params(of_session_t *ses, int codec, UINT32 k, UINT32 r, UINT32 L, long p1, long p2)
 {
 	if (codec == 1) { of_rs_parameters_t p; memset(&p, 0, sizeof p); p.nb_source_symbols = k; p.nb_repair_symbols = r; p.encoding_symbol_length = L; return of_set_fec_parameters(ses, (of_parameters_t *)&p); }
+	if (codec == 2 && (p2 == 4 || p2 == 8)) { UINT16 m0 = (UINT16)p2; of_set_control_parameter(ses, OF_RS_CTRL_SET_FIELD_SIZE, &m0, sizeof m0); }
 	if (codec == 2) { of_rs_2_m_parameters_t p; memset(&p, 0, sizeof p); p.nb_source_symbols = k; p.nb_repair_symbols = r; p.encoding_symbol_length = L; p.m = (UINT16)p1; return of_set_fec_parameters(ses, (of_parameters_t *)&p); }
 	if (codec == 3) { of_ldpc_parameters_t p; memset(&p, 0, sizeof p); p.nb_source_symbols = k; p.nb_repair_symbols = r; p.encoding_symbol_length = L; p.N1 = (UINT8)p1; p.prng_seed = (INT32)p2; return of_set_fec_parameters(ses, (of_parameters_t *)&p); }
 	{ of_2d_parity_parameters_t p; memset(&p, 0, sizeof p); p.nb_source_symbols = k; p.nb_repair_symbols = r; p.encoding_symbol_length = L; return of_set_fec_parameters(ses, (of_parameters_t *)&p); }
@@ -81,7 +82,7 @@ static int step1(sess_t *s)
 	}
 	if (pc < 2 + r) { fprintf(s->o, "%d", of_build_repair_symbol(s->enc, s->enc_tab, k + pc - 2)); return 1; }
 	pc -= 2 + r;
-	if (pc == 0) { of_create_codec_instance(&s->dec, (of_codec_id_t)s->codec, s->role == 3 ? OF_ENCODER_AND_DECODER : OF_DECODER, 0); return 1; }
+	if (pc == 0) { of_create_codec_instance(&s->dec, (of_codec_id_t)s->codec, s->role >= 3 ? OF_ENCODER_AND_DECODER : OF_DECODER, 0); return 1; }
 	if (pc == 1) {
 		st = set_params(s->dec, s->codec, k, r, L, s->p1, s->p2); fprintf(s->o, " Q%d", st);
 		if (st) { s->pc = 1000000; return 1; }
@@ -89,6 +90,15 @@ static int step1(sess_t *s)
 		if (s->codec == 3) { bool a = 0, b = 0; of_get_control_parameter(s->enc, OF_CRTL_LDPC_STAIRCASE_IS_LAST_SYMBOL_NULL, &a, sizeof a);
 			of_get_control_parameter(s->dec, OF_CRTL_LDPC_STAIRCASE_IS_LAST_SYMBOL_NULL, &b, sizeof b); if (a == b) fprintf(s->o, " LN%d", a ? 1 : 0); else fprintf(s->o, " LNx"); }
 		if (s->cbmode) of_set_callback_functions(s->dec, src_cb, (s->codec == 3 || s->codec == 5) ? rep_cb : NULL, s);
+		if (s->role == 4) {
+			void **t2 = calloc(s->n, sizeof *t2); UINT32 nb = 1 + (UINT32)(s->seed % 3); int okb = 1;
+			if (nb > (UINT32)r) nb = r;
+			for (i = 0; i < s->n; i++) { t2[i] = malloc(L ? L : 1); if (i < (UINT32)k) memcpy(t2[i], s->enc_tab[i], L); else memset(t2[i], 0x77, L); }
+			for (i = k; i < k + nb; i++) if (of_build_repair_symbol(s->dec, t2, i) != OF_STATUS_OK || memcmp(t2[i], s->enc_tab[i], L)) okb = 0;
+			for (i = 0; i < s->n; i++) free(t2[i]);
+			free(t2);
+			fprintf(s->o, " ED%d", okb);
+		}
 		for (i = 0; i < s->n; i++) { s->recv_tab[i] = malloc(L ? L : 1); memcpy(s->recv_tab[i], s->enc_tab[i], L); s->avail_tab[i] = NULL; }
 		return 1;
 	}
